@@ -1481,7 +1481,7 @@ func (s *PrintCtx) appendValue(val any) {
 		// }
 
 		// TODO remove usage to fmt.Sprintf
-		s.pcTryQuoteValue(fmt.Sprintf("{{%v}}", z))
+		s.pcQuoteValue(fmt.Sprintf("{{%v}}", z)) // quoted in colorful mode too, as strings are
 	}
 }
 
@@ -1752,10 +1752,9 @@ var safeSet = [utf8.RuneSelf]bool{
 }
 
 func (s *PrintCtx) appendBytes(z []byte) {
-	_, err := s.Write(z)
-	if err != nil {
-		hintInternal(err, "PrintCtx: appendBytes failed")
-	}
+	// quoted like any other string-like value: raw bytes could hold
+	// line feeds, quotes or escape sequences and break the record.
+	s.pcQuoteValue(string(z))
 }
 
 func (s *PrintCtx) appendStringSlice(val []string) {
